@@ -306,9 +306,17 @@ def verify_function(c, mutate=None, canary=False):
             if "__yielded__" in rst.env and any(isinstance(x, (ast.Yield, ast.YieldFrom)) for x in ast.walk(fnode)):
                 rst.env["result"] = rst.env["__yielded__"]
             cx.covers.append((f"return{nret}", list(rst.pc)))
+            # in a postcondition a parameter of immutable type (number, string, optional of these) denotes the value
+            # passed in, also when the body re-binds the name; objects denote their final state
+            pst = rst.copy()
+            for p_ in c.params:
+                ev_ = cx.entry.env.get(p_)
+                inner_ = ev_.val if isinstance(ev_, Opt) else ev_
+                if p_ in pst.env and (is_z3(inner_) or isinstance(inner_, (StrV, PyConst))) and pst.env[p_] is not ev_:
+                    pst.env[p_] = ev_
             for lab, e in c._ensures:
                 try:
-                    g = boolify(X.ev(e, rst, True))
+                    g = boolify(X.ev(e, pst, True))
                 except (AttributeError, TypeError, Unsupported) as err:
                     if rst.env["result"] is None or isinstance(rst.env["result"], Opt):
                         # the contract speaks about a value, this path returns None: must be unreachable
